@@ -99,6 +99,8 @@ Record lcfg := mkCfg {
 
 Inductive case :=
 | CSched (reqs machs : list key) (o : sched_obs)
+(* the same request queue against many machine queues (exhaustive sweeps) *)
+| CSchedMany (reqs : list key) (runs : list (list key * sched_obs))
 | CLive (c : lcfg) (steps : list (lev * lobs)) (status : Z)    (* status 0 = ran to the end *)
 (* (iii) a direct call of Run taking exit x with [procs] procs on a machine whose
    taskProcs was [before]; [after] is taskProcs once Run has returned *)
@@ -298,6 +300,7 @@ Definition run_ok (before after : Z) : bool := after =? before.
 Definition case_exact (c : case) : bool :=
   match c with
   | CSched reqs machs o => sched_exact reqs machs o
+  | CSchedMany reqs runs => forallb (fun x => sched_exact reqs (fst x) (snd x)) runs
   | CLive cfg steps status =>
       (status =? 0) && cfg_exact cfg && live_exact (init_mgr (mgr_machprocs (c_maxprocs cfg) (c_num cfg) (c_den cfg))
                                         (mgr_maxp (c_maxprocs cfg) (c_num cfg) (c_den cfg) (c_maxp cfg))) steps
@@ -307,6 +310,7 @@ Definition case_exact (c : case) : bool :=
 Definition case_ok (c : case) : bool :=
   match c with
   | CSched reqs machs o => sched_ok reqs machs o
+  | CSchedMany reqs runs => forallb (fun x => sched_ok reqs (fst x) (snd x)) runs
   | CLive cfg steps status =>
       (status =? 0) && (c_machprocs cfg =? spec_cap cfg) && live_ok cfg sp_init steps
   | CRun x procs mp before after => run_ok before after
